@@ -56,7 +56,7 @@ def plan(tier):
 def generate(rng, tier):
     lines = []
     for i in range(rng.randrange(1, 6)):
-        k = rng.choice(["str", "sum", "var", "macro", "loop", "nonl", "name", "argc", "sib", "err", "reader", "uni"])
+        k = rng.choice(["str", "sum", "var", "macro", "loop", "nonl", "name", "argc", "sib", "err", "reader", "uni", "hook"])
         lines.append({"k": k, "a": rng.randrange(100), "b": rng.randrange(100)})
     end = rng.choice(["none", "none", "exit", "exit0", "exitmsg", "raise", "reader", "compile", "none", "raise_os", "raise_os",
                       "exitnone", "raise_os"])
@@ -69,13 +69,14 @@ def generate(rng, tier):
     return {"lines": lines, "end": end, "code": rng.choice([2, 3, 7, 42, 255]), "args": args, "pre": pre, "order": order,
             "file_as": rng.choice(["plain", "dot", "abs", "dashdash"]),
             "spell": rng.choice(["plain", "plain", "cluster", "attached", "attached_eq"]),
-            "os_kind": rng.randrange(9), "m_hyphen": rng.random() < 0.3}
+            "os_kind": rng.randrange(14), "run_pyc": rng.random() < 0.3, "m_hyphen": rng.random() < 0.3}
 
 
 def render(desc):
     src = ["(import sys)"]
     out = []
     errs = []
+    hooked = False
     src.append('(print "ARGV0" (get sys.argv 0))')
     src.append('(print "ARGS" (cut sys.argv 1 None))')
     src.append('(print "DWB" sys.dont_write_bytecode)')
@@ -115,6 +116,11 @@ def render(desc):
         elif k == "reader":
             src.append(f"(defreader r{i} '(+ {a} {b}))\n(print #r{i})")
             out.append(str(a + b))
+        elif k == "hook":
+            # the program installs its own excepthook: an uncaught exception must reach it in every mode
+            if not hooked:
+                src.append('(setv sys.excepthook (fn [t v tb] (print "HOOK" (. t __name__))))')
+                hooked = True
         elif k == "uni":
             src.append(f'(setv \u00e9t\u00e9{i} "\u2603{a}") (print \u00e9t\u00e9{i} (len \u00e9t\u00e9{i}))')
             out.append(f"\u2603{a} {len(str(a)) + 1}")
@@ -138,7 +144,10 @@ def render(desc):
                  ("(raise (SystemError \"s\"))", "SystemError"), ("(raise (KeyboardInterrupt))", "KeyboardInterrupt"),
                  ("(raise (ImportError \"no mod\"))", "ImportError"), ("(import no-such-module-zz)", "ModuleNotFoundError"),
                  ("(raise (FileNotFoundError \"just a message\"))", "FileNotFoundError"), ("(raise (FileNotFoundError 2 \"nope\"))", "FileNotFoundError"),
-                 ("(raise (IsADirectoryError 21 \"dir\" \"x\"))", "IsADirectoryError")]
+                 ("(raise (IsADirectoryError 21 \"dir\" \"x\"))", "IsADirectoryError"),
+                 ("(raise (OSError 5 \"io failed\"))", "OSError"), ("(raise (OSError \"bare\"))", "OSError"),
+                 ("(raise (PermissionError 13 \"denied\"))", "PermissionError"), ("(import os) (os.write 987 b\"x\")", "OSError"),
+                 ("(raise (BrokenPipeError 32 \"pipe\"))", "BrokenPipeError")]
         form, exc_name = kinds[desc.get("os_kind", desc["code"]) % len(kinds)]
         src.append(form)
         status = 1
@@ -155,7 +164,13 @@ def render(desc):
         src.append('(print "unreachable")' if e != "none" else '(print "done")')
         if e == "none":
             out.append("done")
-    return "\n".join(src) + "\n", out, status, early, errs, exc_name
+    if hooked and e in ("raise", "raise_os") and exc_name:
+        out.append("HOOK " + exc_name)
+        exc_name = None     # the program's hook prints to stdout instead of a traceback on stderr
+        quiet = True
+    else:
+        quiet = False
+    return "\n".join(src) + "\n", out, status, early, errs, exc_name, quiet
 
 
 def execute(desc):
@@ -168,7 +183,7 @@ def execute(desc):
     os.makedirs(root)
     modname = "p%d_x%d" % (os.getpid() % 100000, _S["n"])
     path = os.path.join(root, modname + ".hy")
-    text, exp_out, exp_status, early, exp_errs, exc_name = render(desc)
+    text, exp_out, exp_status, early, exp_errs, exc_name, quiet = render(desc)
     sib = "sib_" + modname
     text = text.replace("SIBLING", sib)
     with open(path, "w", encoding="utf-8") as f:
@@ -176,6 +191,7 @@ def execute(desc):
     with open(os.path.join(root, sib + ".hy"), "w") as f:
         f.write('(defn sf [x] (+ x 1))\n(defmacro sm [x] `[~x "sib"])\n')
     pyc = importlib.util.cache_from_source(path)
+    pyc_copy = os.path.join(root, modname + "_bc.pyc")
     viols, events = [], []
     faults = {"abnormal_program_end": int(desc["end"] not in ("none",)), "option_like_argument": sum(a.startswith("-") for a in desc["args"])}
     probes = {"invocations": 0, "cache_cold": 0, "cache_warm": 0, "pyc_present_after_cold_run": 0}
@@ -202,6 +218,9 @@ def execute(desc):
                 given = {"plain": modname + ".hy", "dot": "./" + modname + ".hy", "abs": path, "dashdash": modname + ".hy"}[fa]
                 argv = ["hy"] + pre + (["--"] if fa == "dashdash" else []) + [given] + args
                 a0 = given
+            elif mode == "filepyc":
+                argv = ["hy"] + pre + [os.path.basename(pyc_copy)] + args
+                a0 = os.path.basename(pyc_copy)
             elif mode == "stdin":
                 argv = ["hy"] + pre + ["-"] + args
                 a0 = "-"
@@ -248,6 +267,8 @@ def execute(desc):
                     viols.append({"clause": "argv_tail", "sig": sig,
                                   "detail": {"mode": mode, "given": args, "program_saw": head.get("ARGS"), "pre": pre}})
                 saw0 = head.get("ARGV0")
+                if mode == "filepyc" and saw0 is not None and os.path.realpath(os.path.join(root, saw0)) == os.path.realpath(pyc_copy):
+                    saw0 = a0
                 if mode == "file" and saw0 is not None:
                     # the docs only promise the arguments in (cut sys.argv 1); for a script hy passes the absolute
                     # path on to runpy, so argv[0] is accepted when it names the script, as given or resolved
@@ -259,7 +280,7 @@ def execute(desc):
                 if head.get("DWB") != repr(dwb):
                     viols.append({"clause": "option_before_mode_switch", "sig": sig,
                                   "detail": {"mode": mode, "pre": pre, "dont_write_bytecode": head.get("DWB")}})
-            if exp_status != 0 and desc["end"] != "exit" and not err.strip():
+            if exp_status != 0 and desc["end"] != "exit" and not quiet and not err.strip():
                 viols.append({"clause": "failure_not_reported", "sig": sig, "detail": {"mode": mode, "end": desc["end"]}})
             if not early:
                 # what the program itself wrote to stderr, and the name of the exception that ended it
@@ -283,6 +304,12 @@ def execute(desc):
                     probes["pyc_present_after_cold_run"] += 1
                 probes["cache_warm"] += 1
                 invoke(mode, "warm")
+                if mode == "file" and desc.get("run_pyc") and os.path.exists(pyc) and not early:
+                    # `hy FILE` where FILE is the byte-compiled program (as `python prog.pyc`)
+                    # (a copy next to the program, so that the script directory -- sys.path[0] -- is the same)
+                    probes["bytecode_file_runs"] = probes.get("bytecode_file_runs", 0) + 1
+                    shutil.copyfile(pyc, pyc_copy)
+                    invoke("filepyc", "pyc")
             else:
                 invoke(mode, "cold")
     finally:
@@ -313,6 +340,8 @@ def shrink(desc):
         yield dict(desc, file_as="plain")
     if desc.get("spell", "plain") != "plain":
         yield dict(desc, spell="plain")
+    if desc.get("run_pyc"):
+        yield dict(desc, run_pyc=False)
     for i in range(len(desc["order"])):
         if len(desc["order"]) > 1:
             yield dict(desc, order=desc["order"][:i] + desc["order"][i + 1:])
